@@ -1004,9 +1004,10 @@ func main() {
 	rng := rand.New(rand.NewSource(plib.Seed))
 	res.Rule = "strings: every byte string up to the length bound over the 10-byte alphabet {a z C3 A9 E2 82 AC F0 9F FF} (exhaustive) + PRNG longer ones; non-trivial = contains a byte >= 0x80. ints: n in [-3,64] + PRNG. slices: all lengths <= bound x all single (and some double) mutation steps set/append/reslice/nil/grow at every iteration; non-trivial = mutated, len>1. maps: all key sets <= bound x delete/update/insert scripts + PRNG larger maps, typed cases with nil interface keys/values and NaN; element / collection TYPES: 35 directed collections over defined map / slice / string / channel types (incl. receive-only and defined channel types) and elements of every kind (defined strings and ints, bool, float, complex, arrays, structs, pointers, funcs, channels, maps, interface types holding defined values and nil), compared with %#v; channels: buffered+closed and unbuffered producer with nil elements. distinct = distinct input x script."
 	res.Exhaustive = true
-	maxStr, maxSl, maxMap, nRandStr, nRandMap := 5, 5, 5, 3000, 300
+	// (the whole quick run takes a few seconds: the quick tier uses what used to be the thorough bounds)
+	maxStr, maxSl, maxMap, nRandStr, nRandMap := 6, 6, 5, 100000, 5000
 	if plib.Thorough() {
-		maxStr, maxSl, maxMap, nRandStr, nRandMap = 6, 7, 6, 200000, 20000
+		maxStr, maxSl, maxMap, nRandStr, nRandMap = 7, 8, 6, 1000000, 50000
 	}
 	allStrings(maxStr)
 	boundaryStrings()
